@@ -1,10 +1,13 @@
 //! C08 non-interference family (spec/CallEffects.tla): program -> source text.
+use super::ty;
 use serde_json::Value;
 
 pub struct Param {
     pub kd: String,
     pub way: String,
     pub amp: usize,
+    /// statement context of what the callee does with the parameter
+    pub sc: String,
 }
 
 pub fn params(case: &Value) -> Vec<Param> {
@@ -16,6 +19,7 @@ pub fn params(case: &Value) -> Vec<Param> {
                     kd: p["kd"].as_str().unwrap_or("").to_string(),
                     way: p["way"].as_str().unwrap_or("").to_string(),
                     amp: p["amp"].as_u64().unwrap_or(0) as usize,
+                    sc: p["sc"].as_str().unwrap_or("top").to_string(),
                 })
                 .collect()
         })
@@ -66,7 +70,10 @@ fn caller_var(kd: &str) -> &'static str {
 pub const PRINT: &str = "\tprint!(\"x=\", x, \" a0=\", arr[0usize], \" a1=\", arr[1usize], \" sm=\", s.m, \" wm=\", w.m, \"\\n\");";
 
 pub fn key(ps: &[Param]) -> String {
-    ps.iter().map(|p| format!("{}:{}:{}", p.kd, p.way, p.amp)).collect::<Vec<_>>().join(" ")
+    ps.iter()
+        .map(|p| if p.sc == "top" { format!("{}:{}:{}", p.kd, p.way, p.amp) } else { format!("{}:{}:{}@{}", p.kd, p.way, p.amp, p.sc) })
+        .collect::<Vec<_>>()
+        .join(" ")
 }
 
 pub fn render(ps: &[Param]) -> String {
@@ -84,17 +91,18 @@ pub fn render(ps: &[Param]) -> String {
     let sig: Vec<String> = ps.iter().enumerate().map(|(i, p)| format!("q{}: {}", i + 1, param_type(&p.kd))).collect();
     l.push(format!("fn f({})", sig.join(", ")));
     l.push("{".into());
+    l.extend(ty::CTX_LOCALS.iter().map(|s| s.to_string()));
     for (i, p) in ps.iter().enumerate() {
         let q = format!("q{}", i + 1);
-        match p.way.as_str() {
-            "read" => l.push(format!("\tvar c{}: i32 = {};", i + 1, access(&q, &p.kd))),
-            "copy" => {
-                l.push(format!("\tvar c{}: i32 = {};", i + 1, access(&q, &p.kd)));
-                l.push(format!("\tc{} = {}i32;", i + 1, 11 + i));
-            }
-            "write" => l.push(format!("\t{} = {}i32;", access(&q, &p.kd), 11 + i)),
-            "forward" => l.push(format!("\tg{}({}{});", i + 1, if p.kd == "pptr" { "&&" } else { "&" }, q)),
-            _ => {}
+        let stmts = match p.way.as_str() {
+            "read" => format!("var c{}: i32 = {};", i + 1, access(&q, &p.kd)),
+            "copy" => format!("var c{}: i32 = {}; c{} = {}i32;", i + 1, access(&q, &p.kd), i + 1, 11 + i),
+            "write" => format!("{} = {}i32;", access(&q, &p.kd), 11 + i),
+            "forward" => format!("g{}({}{});", i + 1, if p.kd == "pptr" { "&&" } else { "&" }, q),
+            _ => String::new(),
+        };
+        if !stmts.is_empty() {
+            l.push(format!("\t{}", ty::in_stmt_ctx(&p.sc, &stmts, &format!("{}", i + 1))));
         }
     }
     l.push("}".into());
